@@ -187,9 +187,10 @@ def index_listed_label(test, iv):
     if not cp or type(cp[1]) not in (ast.GtE, ast.Gt, ast.NotEq, ast.Lt, ast.LtE, ast.Eq):
         return 'no'
     l, op, r = cp
-    if is_name(l, iv) and isinstance(const_value(r, None), int):
+    is_iv = iv if callable(iv) else (lambda e: is_name(e, iv))
+    if is_iv(l) and isinstance(const_value(r, None), int):
         k, flip = const_value(r, None), False
-    elif is_name(r, iv) and isinstance(const_value(l, None), int):
+    elif is_iv(r) and isinstance(const_value(l, None), int):
         k, flip = const_value(l, None), True
     else:
         return 'no'
@@ -226,11 +227,24 @@ def check_outcomes(c, repo):
         # index
         ia = [n for n in g.nodes if n.kind == 'stmt' and isinstance(n.ast, ast.Assign) and isinstance(n.ast.targets[0], ast.Name)
               and isinstance(n.ast.value, ast.Attribute) and n.ast.value.attr in (idxattr, other_idx)]
-        c.need(len(ia) == 1, '%s(): index = self.searcher.<index field> not found' % meth)
-        iv = ia[0].ast.targets[0].id
-        c.check(ia[0].ast.value.attr == idxattr and ctext(ia[0].ast.value.value, f) == 'self.searcher', f, ia[0].ast,
-                '%s() consults %s of its own searcher (not the other marker\'s field)' % (meth, idxattr),
-                witness=norm(ia[0].ast), kind='ast', tag='own-index')
+        if len(ia) == 1:
+            ivn = ia[0].ast.targets[0].id
+            c.check(ia[0].ast.value.attr == idxattr and ctext(ia[0].ast.value.value, f) == 'self.searcher', f, ia[0].ast,
+                    '%s() consults %s of its own searcher (not the other marker\'s field)' % (meth, idxattr),
+                    witness=norm(ia[0].ast), kind='ast', tag='own-index')
+
+            def iv(e, ivn=ivn):
+                return is_name(e, ivn)
+        else:
+            # the field is read in place (the canonical form of a local that merely holds it)
+            reads = [n for n in iter_nodes(f.node) if isinstance(n, ast.Attribute) and isinstance(n.ctx, ast.Load) and n.attr in (idxattr, other_idx)]
+            c.need(len(ia) == 0 and reads, '%s(): index = self.searcher.<index field> not found' % meth)
+            c.check(all(n.attr == idxattr and ctext(n.value, f) == 'self.searcher' for n in reads), f, reads[0],
+                    '%s() consults %s of its own searcher (not the other marker\'s field)' % (meth, idxattr),
+                    witness=', '.join(sorted(set(norm(n) for n in reads))), kind='ast', tag='own-index')
+
+            def iv(e, idxattr=idxattr, f=f):
+                return isinstance(e, ast.Attribute) and e.attr == idxattr and ctext(e.value, f) == 'self.searcher'
         tests = find_test_nodes(f, lambda t: index_listed_label(t, iv) != 'no')
         c.need(len(tests) == 1, '%s(): test on the index not found' % meth)
         listed_edge = index_listed_label(tests[0].ast, iv)
@@ -241,10 +255,10 @@ def check_outcomes(c, repo):
         lr = guard_region(g, tests[0], listed_edge)
         ur = guard_region(g, tests[0], 'false' if listed_edge == 'true' else 'true')
         rets = [n for n in lr if n.kind == 'stmt' and isinstance(n.ast, ast.Return)]
-        c.check(len(rets) == 1 and is_name(rets[0].ast.value, iv) and not [n for n in lr if n.kind == 'stmt' and isinstance(n.ast, ast.Raise)],
+        c.check(len(rets) == 1 and rets[0].ast.value is not None and iv(rets[0].ast.value) and not [n for n in lr if n.kind == 'stmt' and isinstance(n.ast, ast.Raise)],
                 f, rets[0].ast if rets else tests[0].ast, 'listed: returns that index, raises nothing', kind='path', tag='listed-returns')
         mi = [n for n in lr if n.kind == 'stmt' and stmt_assigns_attr(n.ast, 'match_index') is not None]
-        c.check(len(mi) == 1 and is_name(mi[0].ast.value, iv), f, mi[0].ast if mi else tests[0].ast,
+        c.check(len(mi) == 1 and iv(mi[0].ast.value), f, mi[0].ast if mi else tests[0].ast,
                 'listed: match_index = that index', kind='ast', tag='listed-match-index')
         mm = [n for n in lr if n.kind == 'stmt' and stmt_assigns_attr(n.ast, 'match') is not None]
         c.check(len(mm) == 1 and is_name(mm[0].ast.value, cls), f, mm[0].ast if mm else tests[0].ast,
